@@ -45,8 +45,7 @@ Proof. intros H k Hk. rewrite forallb_forall in H. apply H, nrange_in. lia. Qed.
 
 Lemma ascii_eqb_eq a b : ascii_eqb a b = true <-> a = b.
 Proof.
-  unfold ascii_eqb. rewrite N.eqb_eq. split; [|congruence].
-  intros H. rewrite <- (n2b_b2n a), <- (n2b_b2n b). congruence.
+  unfold ascii_eqb. apply Ascii.eqb_eq.
 Qed.
 
 Lemma bytes_eqb_eq : forall a b, bytes_eqb a b = true <-> a = b.
@@ -55,3 +54,10 @@ Proof.
   - rewrite andb_true_iff, ascii_eqb_eq, IH. intros [-> ->]. reflexivity.
   - intros E. inversion E; subst. rewrite andb_true_iff, ascii_eqb_eq, IH. auto.
 Qed.
+
+Lemma ascii_eqb_refl a : ascii_eqb a a = true.
+Proof. apply ascii_eqb_eq. reflexivity. Qed.
+Lemma bytes_eqb_refl a : bytes_eqb a a = true.
+Proof. apply bytes_eqb_eq. reflexivity. Qed.
+Lemma ci_eqb_refl a : ci_eqb a a = true.
+Proof. unfold ci_eqb. apply bytes_eqb_refl. Qed.
